@@ -30,6 +30,7 @@ func runC20(r *engine.Run) {
 	r.Rule("LOCK-ring", "the ring cursor (MemCore.r), every slot value (ring.Ring.Value) and every ring traversal call (Do/Next/Prev/Len/Move) reachable from the exported methods of MemCore/MemLogger is accessed with MemCore.mu held in the required mode, and the mutex locked in a function belongs to the same core value whose ring the function touches")
 	r.Rule("AGREE-share", "no MemCore is constructed with a by-value copy of another core's ring cursor (a field that Write reassigns): a derived core must not own a second cursor over the shared ring; if it shares the ring it must share the mutex of the same core")
 	r.Rule("FRESH-entry", "no field of a LoggedEntry is stored to unless the entry object was allocated in the same function (entries already handed out by GetLogs are never rewritten)")
+	r.Rule("SNAPSHOT-all", "GetLogs visits every slot of the ring: it traverses with ring.Do from the cursor, or with a loop counted up to the ring's Len()/the buffer size; a walk that stops at a sentinel (back at the cursor, first empty slot) is not accepted because it skips the slot it stops at once the ring is full")
 	r.Rule("ORDER-advance", "Write stores the new entry into the slot at the cursor and then advances the cursor by exactly one (*ring.Ring).Next(), in that order, on every path that touches the ring")
 	r.NotDec = append(r.NotDec, "'exactly the most recent N, newest first' as a sequence property of GetLogs' index arithmetic")
 	const rule = "LOCK-ring"
@@ -77,6 +78,7 @@ func runC20(r *engine.Run) {
 	agreeShare(r)
 	freshEntry(r)
 	orderAdvance(r)
+	snapshotAll(r)
 }
 
 // sameCore: within one function, the core whose mu is locked is the core
@@ -317,4 +319,62 @@ func orderAdvance(r *engine.Run) {
 	}
 	r.Check(good, rule, fn(w), r.P.Pos(w.Pos()), "slot store at the cursor dominates the single Next() advance; no store after the advance",
 		"Write does not store at the cursor and then advance by one on every path")
+}
+
+func snapshotAll(r *engine.Run) {
+	const rule = "SNAPSHOT-all"
+	f := r.Fn(rule, pkgLog, "MemLogger", "GetLogs")
+	if f == nil {
+		return
+	}
+	var do *ssa.Call
+	steps := 0
+	engine.Instrs(f, func(in ssa.Instruction) {
+		c, ok := in.(*ssa.Call)
+		if !ok {
+			return
+		}
+		if extCalleeIs(c, "container/ring", "Ring", "Do") {
+			if coreFieldSource(c.Call.Args[0]) != nil {
+				do = c
+			}
+		}
+		if extCalleeIs(c, "container/ring", "Ring", "Next") || extCalleeIs(c, "container/ring", "Ring", "Prev") {
+			if inLoopBody(c.Block()) {
+				steps++
+			}
+		}
+	})
+	switch {
+	case do != nil && steps == 0:
+		r.OK(rule, fn(f)+"|traversal", r.P.Pos(do.Pos()), "ring.Do from the cursor visits all slots")
+	case steps > 0:
+		// counted loop: some loop condition compares a counter with Len() or a constant
+		counted := false
+		engine.Instrs(f, func(in ssa.Instruction) {
+			iff, ok := in.(*ssa.If)
+			if !ok {
+				return
+			}
+			b, ok := iff.Cond.(*ssa.BinOp)
+			if !ok || (b.Op != token.LSS && b.Op != token.LEQ && b.Op != token.GTR && b.Op != token.GEQ) {
+				return
+			}
+			for _, side := range []ssa.Value{b.X, b.Y} {
+				if _, isK := intConst(side); isK {
+					counted = true
+				}
+				if c, ok := side.(*ssa.Call); ok && extCalleeIs(c, "container/ring", "Ring", "Len") {
+					counted = true
+				}
+			}
+		})
+		if counted {
+			r.OK(rule, fn(f)+"|traversal", r.P.Pos(f.Pos()), "loop counted up to the ring length")
+		} else {
+			r.Undec(rule, fn(f)+"|traversal", r.P.Pos(f.Pos()), "GetLogs walks the ring with a sentinel-terminated loop instead of ring.Do or a loop counted to Len(): once the ring is full such a walk skips the slot it stops at (a retained entry is lost from the snapshot)")
+		}
+	default:
+		r.Fail(rule, fn(f)+"|traversal", r.P.Pos(f.Pos()), "GetLogs no longer traverses the ring")
+	}
 }
